@@ -57,6 +57,8 @@ type CheckCtx struct {
 	Exhaustive  bool
 	Technique   string
 
+	NontrivialStat string // stats key (counted by the trace specification) capping distinct_nontrivial
+
 	Violations []*Violation
 	KnownHit   map[string]string // finding id -> what
 	Drifts     []string
@@ -238,6 +240,10 @@ func (c *CheckCtx) writeEvidence(nviol int) error {
 	nt := 0
 	for range c.Nontrivial {
 		nt++
+	}
+	if c.NontrivialStat != "" && c.Stats[c.NontrivialStat] < nt {
+		// the specification itself counted how many cases reached the property's antecedent
+		nt = c.Stats[c.NontrivialStat]
 	}
 	if len(c.Samples) == 0 {
 		c.Samples = append(c.Samples, "no sample recorded")
